@@ -106,8 +106,9 @@ CONSTANTS Fams,      \* subset of {"nil", "con"}
           Scals,     \* subset of {"no", "init", "ncpl", "sub", "comp"}
           Warm,      \* subset of BOOLEAN
           NRuns,     \* number of successive executions of the same MDA object (1 or 2)
-          Rules,     \* "asread": Gauss-Seidel resolves the strong couplings only, as gauss_seidel.py does today;
-                     \* "repaired": also the couplings read before they are produced (fixes/C06-D0601)
+          Rules,     \* "asread": Gauss-Seidel resolves the strong couplings only, as gauss_seidel.py did before
+                     \*   fix faa2efe (kept as a refutation run only);
+                     \* "repaired": also the couplings read before they are produced - the code today
           SelMod, SelRes,   \* configurations explored: (hash of the configuration) % SelMod \in SelRes
           Emit       \* print one CASE record per instance
 
